@@ -36,7 +36,9 @@ def run_selftest():
     # panic obligations
     for name, bad in [("bad_fixed_read", True), ("good_fixed_read", False), ("bad_off_by_one", True), ("good_get", False),
                       ("bad_unsigned_sub", True), ("good_unsigned_sub", False), ("bad_unwrap", True), ("good_lossy", False),
-                      ("bad_alloc", True), ("bad_alloc_u16", True), ("good_alloc", False)]:
+                      ("bad_alloc", True), ("bad_alloc_u16", True), ("good_alloc", False),
+                      ("good_split_first", False), ("bad_split_second", True), ("good_masked_guard", False),
+                      ("bad_masked_guard", True)]:
         b = body("fx_rules::" + name)
         if b is None:
             continue
